@@ -56,4 +56,12 @@ LsCertified(A4, n, b4, x) ==
   /\ \A i \in 1..n : BSeqSum([j \in 1..n |-> LsA(A4, n, i, j)]) < 4
   /\ \A i \in 1..n : 4 * x[i] = BSeqSum([j \in 1..n |-> LsA(A4, n, i, j) * x[j]]) + b4[i]
 LsTranspose(A, n) == [p \in 1..(n * n) |-> LET i == ((p - 1) \div n) + 1  j == ((p - 1) % n) + 1 IN LsA(A, n, j, i)]
+
+(* Near the radius of convergence (Log semiring).  A cycle of weight 1 - 2^-k has the closure 2^k:                        *)
+(*       2^k = 1 + (1 - 2^-k) 2^k          (checked in exact integers by MC_Semiring for k <= 30)                          *)
+(* so the least solution of  x = a x + 1  with a = 1 - 2^-k is 2^k, whose logarithm is k ln 2.  Log-weights so close to 0 *)
+(* (down to the smallest subnormal) are representable although 1 - 2^-k is not representable as a real number beyond the  *)
+(* mantissa width.  Observations are in thousandths; ln 2 = 0.693147...                                                    *)
+LsKLn2Milli(k) == (k * 693147 + 500) \div 1000
+LsNearOneOK(k, obs) == \A i \in DOMAIN obs : obs[i] >= LsKLn2Milli(k) - 3 /\ obs[i] <= LsKLn2Milli(k) + 3
 =============================================================================
